@@ -464,6 +464,23 @@ def rule_eq3(ctx, py):
         ctx.check(okk and seen == comps, R, r, f._qual, pyfe.src(v)[:100].replace("\n", " "), "all three components, each with "
                   "its own counterpart", "equality does not compare space, time and quantity each with its counterpart "
                   "(compared: %s)" % sorted(seen))
+    # `!=` is what the guards actually use (`u.dim != v.units.dim -> raise`): where a class of the module spells out its own __ne__,
+    # it is the negation of its __eq__ -- true as soon as ONE component differs
+    for cn, cnode in py.mods["units"].classes.items():
+        for m in [x for x in cnode.body if isinstance(x, ast.FunctionDef) and x.name == "__ne__"]:
+            oth = [p_ for p_ in pyfe.params(m) if p_ != "self"][0]
+            for r in [x for x in ast.walk(m) if isinstance(x, ast.Return) and x.value is not None and
+                      not (isinstance(x.value, ast.Constant))]:
+                v = r.value
+                t = pyfe.src(v).replace(" ", "")
+                neg = t in ("notself==%s" % oth, "not(self==%s)" % oth, "notself.__eq__(%s)" % oth, "not(self.__eq__(%s))" % oth)
+                disj = isinstance(v, ast.BoolOp) and isinstance(v.op, ast.Or) and len(v.values) == 3 and all(
+                    isinstance(c, ast.Compare) and len(c.ops) == 1 and isinstance(c.ops[0], ast.NotEq) for c in v.values)
+                single = isinstance(v, ast.Compare) and len(v.ops) == 1 and isinstance(v.ops[0], ast.NotEq)
+                ctx.check(neg or disj or single, R, r, "units.%s.__ne__" % cn, pyfe.src(v)[:90], "not (self == other): one differing "
+                          "component is enough", "`!=` is true only when `%s`: two dimensions (systems) that differ in one or two "
+                          "components do not compare unequal, so the dimension guards `a.dim != b.dim -> raise` let them "
+                          "through" % pyfe.src(v)[:70])
     ctx.floor(R, 1)
 
 
